@@ -493,70 +493,36 @@ theorem hexLineSet_bad_cksum (r : HexRec) (h : r.WF) (ck : Nat) (hck : ck < 256)
 
 /-! ### HEX address composition -/
 
-theorem hexDecode_noSeg (ls : List HexLine) (ela : Int) (m : HexMode) (h : hexNoSeg ls = true)
-    (hm : (m = .plain ∧ ela = 0) ∨ m = .lin ela) :
-    hexDecodeLoop ls 0 ela = hexRefLoop ls m := by
-  induction ls generalizing ela m with
+theorem hexDecode_eq_ref (ls : List HexLine) (m : HexMode) :
+    hexDecodeLoop ls m.base = hexRefLoop ls m := by
+  induction ls generalizing m with
   | nil => rfl
   | cons l rest ih =>
-    simp only [hexNoSeg, List.all_cons, Bool.and_eq_true, bne_iff_ne, ne_eq] at h
-    obtain ⟨h2, hrest⟩ := h
-    have hrest' : hexNoSeg rest = true := by simpa [hexNoSeg] using hrest
     unfold hexDecodeLoop hexRefLoop
-    have c2 : (l.code == 2) = false := by simpa using h2
-    simp only [c2, Bool.false_eq_true, if_false]
-    by_cases c4 : (l.code == 4) = true
-    · simp only [c4, if_true]
-      cases hx : l.ext with
-      | ela b => exact ih b (.lin b) hrest' (Or.inr rfl)
-      | none => exact ih ela m hrest' hm
-      | base v => exact ih ela m hrest' hm
-      | csip a b => exact ih ela m hrest' hm
-      | eip v => exact ih ela m hrest' hm
-    · simp only [c4]
-      by_cases c0 : (l.code == 0) = true
-      · simp only [c0, if_true]
-        rw [ih ela m hrest' hm]
-        rcases hm with ⟨hm, he⟩ | hm
-        · subst hm; subst he; simp
-        · subst hm
-          by_cases he : ela = 0
-          · subst he; simp
-          · simp [he]
-      · simp only [c0]
-        exact ih ela m hrest' hm
-
-theorem hexDecode_noLin (ls : List HexLine) (seg : Int) (m : HexMode) (h : hexNoLin ls = true)
-    (hm : (m = .plain ∧ seg = 0) ∨ m = .seg seg) :
-    hexDecodeLoop ls seg 0 = hexRefLoop ls m := by
-  induction ls generalizing seg m with
-  | nil => rfl
-  | cons l rest ih =>
-    simp only [hexNoLin, List.all_cons, Bool.and_eq_true, bne_iff_ne, ne_eq] at h
-    obtain ⟨h4, hrest⟩ := h
-    have hrest' : hexNoLin rest = true := by simpa [hexNoLin] using hrest
-    unfold hexDecodeLoop hexRefLoop
-    have c4 : (l.code == 4) = false := by simpa using h4
     by_cases c2 : (l.code == 2) = true
     · simp only [c2, if_true]
       cases hx : l.ext with
-      | base b => exact ih b (.seg b) hrest' (Or.inr rfl)
-      | none => exact ih seg m hrest' hm
-      | ela v => exact ih seg m hrest' hm
-      | csip a b => exact ih seg m hrest' hm
-      | eip v => exact ih seg m hrest' hm
-    · simp only [c2, c4, Bool.false_eq_true, if_false]
-      by_cases c0 : (l.code == 0) = true
-      · simp only [c0, if_true]
-        rw [ih seg m hrest' hm]
-        rcases hm with ⟨hm, he⟩ | hm
-        · subst hm; subst he; simp
-        · subst hm
-          by_cases he : seg = 0
-          · subst he; simp
-          · simp [he]
-      · simp only [c0]
-        exact ih seg m hrest' hm
+      | base b => exact ih (.seg b)
+      | none => exact ih m
+      | ela v => exact ih m
+      | csip a b => exact ih m
+      | eip v => exact ih m
+    · simp only [c2]
+      by_cases c4 : (l.code == 4) = true
+      · simp only [c4, if_true]
+        cases hx : l.ext with
+        | ela b => exact ih (.lin b)
+        | none => exact ih m
+        | base v => exact ih m
+        | csip a b => exact ih m
+        | eip v => exact ih m
+      · simp only [c4]
+        by_cases c0 : (l.code == 0) = true
+        · simp only [c0, if_true]
+          rw [ih m]
+          cases m <;> simp [HexMode.base]
+        · simp only [c0]
+          exact ih m
 
 
 /-! ### SREC round trip -/
@@ -990,7 +956,7 @@ theorem nameSections_ok (tab : Bytes) (sh : List Rec)
 /-! ### well-formed images and the main refinement -/
 
 /-- A structurally valid ELF image, stated on what the *reference reader* sees: magic, the header
-    and both tables inside the file, every segment type one that amoco's constant table knows,
+    and both tables inside the file,
     `e_shstrndx` a string table below 2^63 whose names are UTF-8. -/
 structure ElfWF (env : ElfEnv) (data : Bytes) : Prop where
   len : ehdrSize (refElf data).x64 ≤ data.length
@@ -998,7 +964,6 @@ structure ElfWF (env : ElfEnv) (data : Bytes) : Prop where
   magic : fget (refElf data).ident "ELFMAG" = 0x454c46
   ph_in : ∀ i, i < fget (refElf data).ehdr "e_phnum" →
           fget (refElf data).ehdr "e_phoff" + i * fget (refElf data).ehdr "e_phentsize" + phdrSize (refElf data).x64 ≤ data.length
-  ph_known : ∀ p ∈ (refElf data).phdr, keepPhdr env p = true
   sh_in : ∀ i, i < fget (refElf data).ehdr "e_shnum" →
           fget (refElf data).ehdr "e_shoff" + i * fget (refElf data).ehdr "e_shentsize" + shdrSize (refElf data).x64 ≤ data.length
   strndx_pos : fget (refElf data).ehdr "e_shstrndx" ≠ 0
@@ -1057,7 +1022,7 @@ theorem elfTables_eq_ref (env : ElfEnv) (data : Bytes) (h : ElfWF env data) :
     · simp only [hz, if_true]
       exact shdrTable_ok R.be R.x64 data _ _ _ h.sh_in
     · simp only [hz]; rfl
-  have hpf : R.phdr.filter (keepPhdr env) = R.phdr := List.filter_eq_self.mpr h.ph_known
+  have hpf : R.phdr.filter (keepPhdr env) = R.phdr := List.filter_eq_self.mpr (fun _ _ => rfl)
   have hRnames : R.names = R.shdr.map (fun s => cstrAt
       (slice data (fget (R.shdr.getD (fget R.ehdr "e_shstrndx") []) "sh_offset")
                   (fget (R.shdr.getD (fget R.ehdr "e_shstrndx") []) "sh_size")) (fget s "sh_name")) := rfl
